@@ -5,6 +5,8 @@ CONSTANTS
   Bondeds = {"3"}
   Coeffs = {"50000000000000000000", "100000000000000000000"}
   MaxDists = {"0", "1", "2"}
+  MaxAbs = {}
+  MaxDenoms = {"aISLM"}
   ExtDeltas = {}
   InitSupply = "20000000000000000000000000000"
   MaxLen = 3
